@@ -361,3 +361,40 @@ def allowed_exception(e: BaseException, strings: bool = False, dicts: bool = Fal
     if dicts and isinstance(e, ContractFormatError):
         return True
     return False
+
+
+# --------------------------------------------------------------------------------------
+# every public entry point (used by the cross-cutting monitors of C13 / C14)
+
+import pacti.utils.fileio as fileio_mod  # noqa: E402
+
+try:
+    import pacti.utils.plots as plots_mod  # noqa: E402
+except Exception:  # noqa: BLE001  matplotlib missing or broken: C18 will report it
+    plots_mod = None
+
+STRING_OPS = ("from_strings", "polyhedral_termlist_from_string", "PIC.optimize", "PIC.get_variable_bounds",
+              "read_contracts_from_file")
+DICT_OPS = ("from_dict", "validate_contract_dict", "read_contracts_from_file")
+
+
+def attach_public(rec: Recorder) -> None:
+    attach_l2(rec)
+    attach_l3(rec)
+    for n in ("__init__", "contains_behavior", "intersect", "simplify", "copy", "__le__"):
+        rec.attach_method(NestedTermList, n, "Nested." + n)
+    for n in ("__init__", "merge"):
+        rec.attach_method(IoContractCompound, n, "Compound." + n)
+    for n in ("from_strings", "to_dict"):
+        rec.attach_method(PolyhedralIoContractCompound, n, "PICC." + n)
+    rec.attach_method(PolyhedralTermList, "to_str_list", "PTL.to_str_list")
+    rec.attach_global(ser_mod, "polyhedral_termlist_from_string", "ser.polyhedral_termlist_from_string")
+    rec.attach_global(ser_mod, "validate_contract_dict", "ser.validate_contract_dict")
+    rec.attach_global(fileio_mod, "read_contracts_from_file", "fileio.read_contracts_from_file")
+    rec.attach_global(fileio_mod, "write_contracts_to_file", "fileio.write_contracts_to_file")
+    if plots_mod is not None:
+        rec.attach_global(plots_mod, "constraints_to_vertices", "plots.constraints_to_vertices")
+
+
+def op_allows(label: str) -> Dict[str, bool]:
+    return {"strings": any(s in label for s in STRING_OPS), "dicts": any(s in label for s in DICT_OPS)}
